@@ -61,6 +61,14 @@ def units(tier, seed):
         if cid.startswith('dir'):
             for oi, op in enumerate([{'op': 'del', 'key': 'a'}, {'op': 'pop', 'key': 'a'}, {'op': 'clear'}, {'op': 'set', 'key': 'a', 'value': 'new'}]):
                 out.append((cid, 'dirty', {'a': 'old', 'b': 'keep'}, 200 + oi, op))
+    # an operation the same handle completed just before (setdefault, popkeys): it must be durable when the next one is interrupted
+    for cid in cids:
+        pr = {'a': 'old', 'b': 'keep'}
+        for oi, op in enumerate([{'op': 'set', 'key': 'n', 'value': 'new', 'before': [{'op': 'setdefault', 'key': 'k', 'value': 5}]},
+                                 {'op': 'pop', 'key': 'a', 'before': [{'op': 'setdefault', 'key': 'k', 'value': 5}]},
+                                 {'op': 'set', 'key': 'n', 'value': 'new', 'before': [{'op': 'popkeys', 'keys': ['a']}]},
+                                 {'op': 'popkeys', 'keys': ['a', 'b']}]):
+            out.append((cid, 1, pr, 300 + oi, op))
     return out
 
 
@@ -88,11 +96,27 @@ def reader(cid, root):
     return (p.stdout.strip().splitlines() or ['ERR no output: ' + p.stderr[-200:]])[-1]
 
 
+def after_prefix(prior, op):
+    """the contents once the operations the handle completed BEFORE the interrupted one are applied (they are durable by then)"""
+    cur = {_k(k): v for k, v in prior.items()}
+    for b in op.get('before', []):
+        if b['op'] == 'setdefault':
+            cur.setdefault(_k(b['key']), b['value'])
+        else:
+            cur, _ = expected_new(cur, b)
+    return cur
+
+
 def expected_new(prior, op):
     prior = {_k(k): v for k, v in prior.items()}
     new = dict(prior)
     touched = set()
     k = op['op']
+    if k == 'popkeys':
+        for kk in op['keys']:
+            new.pop(_k(kk), None)
+            touched.add(_k(kk))
+        return new, touched
     if k == 'set':
         new[_k(op['key'])] = op['value']
         touched.add(_k(op['key']))
@@ -200,7 +224,8 @@ def run_unit(unit):
     base = None
     try:
         base = _prepare(cid, prior, dirty=(pi == 'dirty'))
-        new, touched = expected_new(prior, op)
+        prior_eff = after_prefix(prior, op)
+        new, touched = expected_new(prior_eff, op)
         # 1. the effect sequence of the uninterrupted operation
         r0 = _copy(base)
         try:
@@ -211,13 +236,15 @@ def run_unit(unit):
                     return out
                 raise RuntimeError('uninterrupted run failed: rc=%s %s' % (p.returncode, p.stderr[-300:]))
             effects = json.loads(line[0][8:])
+            pre = [l for l in p.stdout.splitlines() if l.startswith('PREFIX ')]
+            nprefix = int(pre[0][7:]) if pre else 0
             why = judge(reader(cid, r0), new, new, set())
             if why:
                 out['violations'].append({'clause': 'uninterrupted_operation_takes_effect', 'klass': '%s %s: completed operation not visible to a new process' % (cid, op['op']),
                                           'message': '%s %r on %r: %s' % (cid, op, prior, why), 'witness': {'unit': list(unit), 'kill': -1, 'half': False}})
         finally:
             AR.drop_root(r0)
-        points = [(i, False) for i in range(len(effects))] + [(i, True) for i, e in enumerate(effects) if e.startswith('write ')]
+        points = [(i, False) for i in range(nprefix, len(effects))] + [(i, True) for i, e in enumerate(effects) if e.startswith('write ') and i >= nprefix]
         for (i, half) in points:
             r = _copy(base)
             try:
@@ -227,7 +254,7 @@ def run_unit(unit):
                 out['counters']['crash_points'] += 1
                 if p.returncode != 17:
                     continue        # the effect sequence was shorter this time (e.g. random temp names): nothing was interrupted
-                why = judge(reader(cid, r), {_k(k): v for k, v in prior.items()}, new, touched)
+                why = judge(reader(cid, r), prior_eff, new, touched)
                 if why:
                     kl = klass_of(cid, op, effects[i], why)
                     if kl in seen:
@@ -255,10 +282,11 @@ def replay(w):
     cid, pi, prior, oi, op = w['unit']
     base = _prepare(cid, prior, dirty=(pi == 'dirty'))
     try:
-        new, touched = expected_new(prior, op)
+        prior_eff = after_prefix(prior, op)
+        new, touched = expected_new(prior_eff, op)
         p = child(cid, base, op, w['kill'], w['half'])
         line = reader(cid, base)
-        why = judge(line, {_k(k): v for k, v in prior.items()} if w['kill'] >= 0 else new, new, touched if w['kill'] >= 0 else set())
+        why = judge(line, prior_eff if w['kill'] >= 0 else new, new, touched if w['kill'] >= 0 else set())
         txt = '%s: %r on %r, writer killed before effect #%d%s; a new process reads: %s' % (cid, op, prior, w['kill'], ' (half write)' if w['half'] else '', line[:300])
         return bool(why), txt + (' -- ' + why if why else ' -- acceptable')
     finally:
